@@ -388,6 +388,100 @@ func checkC07(c *core.Ctx) {
 	wg.Wait()
 	c.Count(0, total.States, total.Transitions, 0)
 	c.Set("explorer", map[string]any{"executions": total.Executions, "max_depth": total.MaxDepth})
+	c07LongHistories(c, sc, fc, pool, ref)
+}
+
+// c07LongHistories: the whole pool (in pool order) after N renamed copies of one definition kind - in one
+// file and with the copies in an earlier file.  Counters, allocators and caches that are meant to be
+// per definition or per group but live for the whole invocation (fc has limits such as 100 type variables
+// per allocator) only show after many definitions.
+func c07LongHistories(c *core.Ctx, sc *impl.Scratch, fc string, pool []c07Def, ref map[int]string) {
+	kinds := []struct {
+		name string
+		mk   func(i int) string
+	}{
+		{"type-and-groups", func(i int) string {
+			return fmt.Sprintf("type La%d =\n  | Lx%d of Lb%d\n  | Ly%d of Lc%d\n  | Lz%d\nand Lb%d = {Lf%d: int; Lg%d: []La%d}\nand Lc%d = {Lh%d: Lb%d}\n", i, i, i, i, i, i, i, i, i, i, i, i, i)
+		}},
+		{"many-type-variables", func(i int) string {
+			return fmt.Sprintf("let lm%d a b c d e f g h =\n  ((a, b, c), (d, e, f), (g, h))\n", i)
+		}},
+		{"match-temporaries", func(i int) string {
+			return fmt.Sprintf("let lt%d (x:int) =\n  let u = if x < 1 then Some x else None<int> ()\n  match u with\n  | Some v -> v\n  | None -> 0\n", i)
+		}},
+		{"package-info", func(i int) string {
+			return fmt.Sprintf("package_info lp%d =\n  type H%d\n  let Mk%d: ()->H%d\n  let Use%d<T>: H%d->T->T\n", i, i, i, i, i, i)
+		}},
+		{"generic-instantiations", func(i int) string {
+			return fmt.Sprintf("type Lg%d<T> = {Lv%d: T; Lw%d: []T}\n\nlet lgi%d (x:int) =\n  {Lv%d=x; Lw%d=[x]}\n\nlet lgs%d (x:string) =\n  {Lv%d=x; Lw%d=[x]}\n", i, i, i, i, i, i, i, i, i)
+		}},
+	}
+	counts := []int{60, 130}
+	dir := sc.TempDir("c07long_")
+	defer os.RemoveAll(dir)
+	optDecl := "type Opt<T> =\n  | Some of T\n  | None\n\n"
+	for _, k := range kinds {
+		for _, n := range counts {
+			for _, twoFiles := range []bool{false, true} {
+				if c.Expired() || c.TooManyViolations() {
+					c.NotExhaustive("long histories not completed")
+					return
+				}
+				var copies strings.Builder
+				copies.WriteString("package main\n\n" + optDecl)
+				for i := 0; i < n; i++ {
+					copies.WriteString(k.mk(i))
+					copies.WriteString("\n")
+				}
+				var rest strings.Builder
+				for _, d := range pool {
+					rest.WriteString(d.src)
+					rest.WriteString("\n")
+				}
+				ents, _ := os.ReadDir(dir)
+				for _, e := range ents {
+					os.Remove(filepath.Join(dir, e.Name()))
+				}
+				var args []string
+				input := map[string]string{}
+				if twoFiles {
+					input["f0.fo"] = copies.String()
+					input["f1.fo"] = "package main\n\n" + rest.String()
+					args = []string{"f0.fo", "f1.fo"}
+				} else {
+					input["f1.fo"] = copies.String() + rest.String()
+					args = []string{"f1.fo"}
+				}
+				for nme, txt := range input {
+					os.WriteFile(filepath.Join(dir, nme), []byte(txt), 0o644)
+				}
+				r := impl.RunWithRetry(dir, 60*time.Second, 180*time.Second, fc, args...)
+				desc := fmt.Sprintf("%d copies of %s, then the pool (two files: %v)", n, k.name, twoFiles)
+				c.Count(1, 1, 1, 0)
+				c.DistinctNT("long:"+desc, true)
+				c.Hist("long_histories", k.name, 1)
+				rep := map[string]any{"kind": "long-history", "description": desc, "args": args, "observed": trunc(r.Out(), 800)}
+				if r.Exit != 0 || r.TimedOut {
+					c.Violation("C07:long-history-rejected:"+k.name, fmt.Sprintf("%s: fc fails: %s", desc, firstLines(r.Out(), 3)), rep)
+					continue
+				}
+				ex, err := c07Extract(pool, filepath.Join(dir, "gen_f1.go"))
+				if err != nil {
+					c.Violation("C07:unparsable", desc+": "+err.Error(), rep)
+					continue
+				}
+				for i := range pool {
+					if pool[i].noOutput {
+						continue
+					}
+					c.Count(0, 0, 0, 1)
+					if g := c07Renumber(ex[i]); g != ref[i] {
+						c.Violation("C07:definition-differs:"+pool[i].name, fmt.Sprintf("%s: the Go text of %s differs from its text in the minimal history: %s", desc, pool[i].name, firstDiff(ref[i], g)), rep)
+					}
+				}
+			}
+		}
+	}
 }
 
 func c07RunOne(c *core.Ctx, fc, dir string, pool []c07Def, ref, refPat map[int]string, cs *c07Case) {
